@@ -99,12 +99,14 @@ def main(argv):
                     caught.append(p)
                 elif r.returncode != 0:
                     rec['checks'][p]['tail'] = r.stdout[-400:]
+                    if 'BUILD FAILED' in r.stdout:
+                        rec['invalid'] = 'does not compile in the harness build'
             rec['caught'] = bool(caught)
         finally:
             clean()
         out.write(json.dumps(rec) + '\n')
         out.flush()
-        print('%-60s %s %s %s' % (name, 'CAUGHT' if rec['caught'] else 'MISSED', rec.get('repo_tests', ''),
+        print('%-60s %s %s %s' % (name, 'CAUGHT' if rec['caught'] else ('INVALID' if rec.get('invalid') else 'MISSED'), rec.get('repo_tests', ''),
                                   {p: c['sigs'][:2] for p, c in rec['checks'].items()}))
     if tests:
         sh('make -C %s -j16 >/dev/null 2>&1' % REPO)
